@@ -76,6 +76,7 @@ type Pred struct {
 }
 
 type ContractDB struct {
+	ReadOnly map[string]bool // "pkgpath.Var" declared read-only
 	Preds  map[string]*Pred
 	ByName map[string]*FnContract
 	byFn   map[*ssa.Function]*FnContract
@@ -190,7 +191,7 @@ func parseClause(text string) (Clause, error) {
 }
 
 var keywords = map[string]bool{"func": true, "props": true, "spec": true, "requires": true, "ensures": true, "assigns": true, "loop": true,
-	"invariant": true, "decreases": true, "unroll": true, "opt": true, "trusted": true, "let": true, "modifies": true, "ghost": true, "cases": true, "table": true, "key": true, "pred": true}
+	"invariant": true, "decreases": true, "unroll": true, "opt": true, "trusted": true, "let": true, "modifies": true, "ghost": true, "cases": true, "table": true, "key": true, "pred": true, "readonly": true}
 
 // LoadContracts parses every verif_contracts*.go file of the loaded module packages.
 func LoadContracts(p *Program) *ContractDB {
@@ -264,6 +265,14 @@ func (db *ContractDB) parseLines(p *Program, pkgPath, file string, lines []strin
 			}
 			db.ByName[name] = cur
 			db.Order = append(db.Order, cur)
+		case "readonly":
+			// readonly <package-level variable>: assumed never written after initialisation (listed as an assumption)
+			if db.ReadOnly == nil {
+				db.ReadOnly = map[string]bool{}
+			}
+			for _, n := range strings.Fields(it.rest) {
+				db.ReadOnly[pkgPath+"."+n] = true
+			}
 		case "pred":
 			// pred name(a, b, c) = expr      (package-level contract macro)
 			eq := strings.Index(it.rest, "=")
